@@ -39,7 +39,7 @@ ASSUMPTIONS = [
     "the see-saw's unseeded randomness is pinned by patching numpy.random.default_rng (None seed -> [s, k]) and np.random.seed(s); classical <= see-saw is not asserted (local optima)",
     "NPA level 2 is only evaluated when (A-1)X+(B-1)Y <= 6 and level '1+ab' when the moment matrix has <= 70 rows; in the history machine a drawn level that is too large for the game is replaced by the next smaller one",
     "BCS constraints are 0/1 arrays of shape (2,)*n depending on at least one variable (a constant constraint divides by zero in from_bcs_game: outside the domain)",
-    "invariance of each NPA level under the transformations holds for the relaxation itself (linear change of operator basis / coarse-graining of a losing answer / copying a measurement), not only for the limit",
+    "metamorphic invariance is asserted for the classical value, the non-signalling value and NPA level 1 (whose relaxation is invariant under a linear change of operator basis, coarse-graining of a losing answer and copying of a measurement); it is NOT asserted for intermediate/higher NPA levels because toqito's moment matrix for '1+ab' is labelling dependent (a looser but still valid bound)",
     "numpy einsum/Kronecker index algebra (row-major, first repetition most significant) is trusted as the product-game model; scipy highs is trusted after re-checking feasibility of its point to 1e-8",
 ]
 
@@ -309,29 +309,28 @@ def _levels_for(shape, want):
 
 @st.composite
 def _meta_sdp_case(draw):
-    spec = draw(_family_game(max_entries=120))
-    return {"game": spec, "levels": draw(st.sampled_from([[1], [1], ["1+ab"], [1, "1+ab"]])), "ns": draw(st.booleans())}
+    spec = draw(_family_game(max_entries=100))
+    return {"game": spec, "which": draw(st.sampled_from(["ns", "npa1", "both"]))}
 
 
 def check_meta_sdp(case):
+    """NS value and NPA level 1 are invariant.  (Intermediate levels are *not* asserted: toqito's '1+ab' moment
+    matrix depends on the labelling of answers/questions - 0.8570 vs 0.8542 on a unique game with 3 answers, both
+    solved to 1e-6 - which loosens the bound but does not contradict the property.)"""
     (p0, v0), (p1, v1) = _base_and_image(case["game"])
     G = _Game()
     g0, g1 = G(p0, v0), G(p1, v1)
-    compared, missing = 0, 0
+    missing = 0
     pairs = []
-    if case["ns"]:
+    if case["which"] in ("ns", "both"):
         pairs.append(("nonsignaling_value", lambda g: H.call_value(g.nonsignaling_value)))
-    lv = [k for k in _levels_for(v1.shape, case["levels"]) if k in _levels_for(v0.shape, case["levels"])]
-    if not lv and not case["ns"]:
-        lv = [1]
-    for k in lv:
-        pairs.append((f"npa[{k}]", lambda g, k=k: H.call_value(g.commuting_measurement_value_upper_bound, k)))
+    if case["which"] in ("npa1", "both"):
+        pairs.append(("npa[1]", lambda g: H.call_value(g.commuting_measurement_value_upper_bound, 1)))
     for name, fn in pairs:
         a, b = fn(g0), fn(g1)
         if a is None or b is None:
             missing += 1
             continue
-        compared += 1
         req(
             abs(a - b) <= H.TOL_SDP,
             f"{name}: {a:.6f} on the base game of shape {v0.shape} but {b:.6f} after a value-preserving transformation (shape {v1.shape})",
@@ -347,7 +346,7 @@ def check_meta_sdp(case):
 @st.composite
 def _order_case(draw):
     reps = 1
-    if draw(st.integers(0, 7)) == 0:
+    if draw(st.integers(0, 9)) == 0:
         # a repeated 2x2x2x2 game
         spec = draw(_family_game(fams=("xor", "rand01"), tf=False, small=True))
         if spec["fam"] == "xor":
@@ -426,7 +425,10 @@ def nt_order(case):
     if case.get("reps", 1) != 1:
         prob, pred = H.product_game(prob, pred, case["reps"])
     asym = _asym_label(pred.shape) is not None
-    gap = H.ns_lp(prob, pred) - H.classical_oracle(prob, pred)[0]
+    try:
+        gap = H.ns_lp(prob, pred) - H.classical_oracle(prob, pred)[0]
+    except Inconclusive:
+        gap = 0.0
     if gap >= 0.02:
         return "gap>=0.02" + (",asym" if asym else "") + (",reps2" if case.get("reps", 1) != 1 else "")
     if asym:
@@ -633,7 +635,7 @@ HISTORY = HistorySpec(
     },
     model=GameModel,
     max_steps=6,
-    step_timeout=30.0,
+    step_timeout=60.0,
 )
 
 
@@ -648,10 +650,10 @@ SUBCHECKS = [
     SubCheck("classical_bruteforce", check_classical, _classical_case, nt_classical, quick=4000, thorough=60000),
     SubCheck("classical_pred_dtype", check_classical_dtype, _dtype_case, lambda c: "dtype:" + c["dtype"], quick=300, thorough=3000, shards=4),
     SubCheck("metamorphic_classical", check_meta_classical, lambda: st.builds(lambda g: {"game": g}, _family_game(fams=("xor", "modk", "unique", "bcs", "rand01", "frac16", "float"), max_entries=256)), nt_meta, quick=1200, thorough=20000),
-    SubCheck("metamorphic_sdp", check_meta_sdp, _meta_sdp_case, nt_meta, quick=48, thorough=700, case_timeout=60),
-    SubCheck("order_chain", check_order, _order_case, nt_order, quick=64, thorough=800, case_timeout=90),
+    SubCheck("metamorphic_sdp", check_meta_sdp, _meta_sdp_case, nt_meta, quick=48, thorough=700, case_timeout=150),
+    SubCheck("order_chain", check_order, _order_case, nt_order, quick=48, thorough=700, case_timeout=200),
     SubCheck("ns_equals_lp", check_ns, _ns_case, nt_ns, quick=96, thorough=1500, case_timeout=30),
     SubCheck("reps_product", check_reps, _reps_case, nt_reps, quick=800, thorough=12000),
     SubCheck("bcs_game", check_bcs, _bcs_case, nt_bcs, quick=1200, thorough=20000),
-    SubCheck("history", HISTORY.replay, machine=HISTORY, nontrivial=nt_history, quick=24, thorough=300, case_timeout=0),
+    SubCheck("history", HISTORY.replay, machine=HISTORY, nontrivial=nt_history, quick=20, thorough=300, case_timeout=400),
 ]
